@@ -55,6 +55,10 @@ type regime struct {
 	key       string   // check-name prefix, lower case
 	countries []string // values of Identity.Country to validate with
 	prefixes  []string // textual prefixes the normaliser is expected to strip
+	// also: alternative tax country codes the published regime file lists and
+	// normalisation keeps (XI / XU for GB): identities of those countries are
+	// subject to the same rule
+	also []string
 	alphabet  string   // national alphabet (substitutions, random strings)
 	ref       func(code string) refResult
 	valid     func(s src) string // a code the reference calls valid (constructed)
@@ -329,7 +333,7 @@ var regimeList = []*regime{
 		},
 	},
 	{
-		key: "gb", countries: []string{"GB"}, prefixes: []string{"GB", "GB", "XI", "XU"}, alphabet: digits + "GDHA", lengths: []int{9, 12, 5},
+		key: "gb", countries: []string{"GB"}, also: []string{"XI", "XU"}, prefixes: []string{"GB", "GB", "XI", "XU"}, alphabet: digits + "GDHA", lengths: []int{9, 12, 5},
 		ref: gbRef,
 		valid: func(s src) string {
 			return retry(gbRef, func() string {
@@ -628,6 +632,9 @@ func genCase(r *regime) func(t *rapid.T) Case {
 		s := rsrc{t}
 		// validation takes the already-normalised identity: the regime's tax country (EL for Greece)
 		c := Case{Regime: r.key, Country: r.countries[0]}
+		if len(r.also) > 0 && s.n("altcountry", 4) == 0 {
+			c.Country = r.also[s.n("altcountryv", len(r.also))]
+		}
 		k := s.n("kind", 20)
 		switch {
 		case k < 6:
